@@ -35,9 +35,16 @@ CONSTANTS Scens,       \* pipelines: set of [srcs: sources per plot, obj: the so
           Settings,    \* set of [m1, m2, lo, po]: modes of the two Writes ("check", "existing_unchanged",
                        \* "overwrite"), overwrite of LaTeXToPDF and of PDFToPNG
           CreatedSetsChanged,
+          Reuses,      \* subset of BOOLEAN: FALSE = the pipeline objects are built anew for every run,
+                       \* TRUE = the same objects run again and again (plain chain only: GroupBy keeps
+                       \* its groups); the properties must hold both ways
+          AutoReload,  \* TRUE: a reused RenderLaTeX renders the template file as it is now (jinja2 checks
+                       \* the file); FALSE: it keeps the template it loaded first - TLC refutes AllCurrent
           KeepHistory
 
 VARIABLES sc,                          \* the pipeline of this history
+          reuse, cached,               \* are the objects reused; template version held by the RenderLaTeX
+                                       \* object (0: none)
           dataVer, tplVer, files,      \* dataVer[p][m]; files[p] = [csv (one per source), tex, pdf, png]
           texNewer,                    \* the tex was written after the pdf (modification times)
           set,                         \* the settings of this history
@@ -47,10 +54,10 @@ VARIABLES sc,                          \* the pipeline of this history
           touched, rank, fresh, rt,    \* touched since the last run; canonical order; nothing touched since
                                        \* the run that just ended; what had been touched before that run
           h
-vars == <<sc, dataVer, tplVer, files, texNewer, set, runs, ph, cur, mem, ch, mch, wrote, launched, chOut, pre,
-          touched, rank, fresh, rt, h>>
-view == <<sc, dataVer, tplVer, files, texNewer, set, runs, ph, cur, mem, ch, mch, wrote, launched, chOut, pre,
-          touched, rank, fresh, rt>>
+vars == <<sc, reuse, cached, dataVer, tplVer, files, texNewer, set, runs, ph, cur, mem, ch, mch, wrote, launched,
+          chOut, pre, touched, rank, fresh, rt, h>>
+view == <<sc, reuse, cached, dataVer, tplVer, files, texNewer, set, runs, ph, cur, mem, ch, mch, wrote, launched,
+          chOut, pre, touched, rank, fresh, rt>>
 
 NP == Len(sc.srcs)
 Plots == 1..NP
@@ -83,6 +90,7 @@ ScenExpC == {Plain(2), WithObj(<<TRUE>>), WithObj(<<TRUE, FALSE>>), Group(<<2, 2
 ScenExpF == {Group(<<3>>), Group(<<2, 2>>), Group(<<2, 3>>), WithObj(<<TRUE>>), WithObj(<<TRUE, FALSE>>), WithObj(<<FALSE, TRUE, FALSE>>)}
 
 Init == /\ sc \in Scens /\ set \in Settings
+        /\ reuse \in {r \in Reuses : sc.grouped => ~r} /\ cached = 0
         /\ dataVer = [p \in 1..Len(sc.srcs) |-> [m \in 1..sc.srcs[p] |-> 1]] /\ tplVer = 1
         /\ files = [p \in 1..Len(sc.srcs) |-> [csv |-> [m \in 1..sc.srcs[p] |-> Absent], tex |-> Absent,
                                                pdf |-> Absent, png |-> Absent]]
@@ -101,7 +109,7 @@ DataRank(p, m) == 10 * NP + 4 * (p - 1) + m
 TplRank == 14 * NP + 1
 CanTouch(r) == ph = "idle" /\ runs >= 1 /\ runs < MaxRuns /\ r > rank
                /\ Len(touched.del) + Len(touched.data) + (IF touched.tpl THEN 1 ELSE 0) < MaxTouch
-Keep == UNCHANGED <<sc, texNewer, set, runs, ph, cur, mem, ch, mch, wrote, launched, chOut, pre, rt, h>>
+Keep == UNCHANGED <<sc, reuse, cached, texNewer, set, runs, ph, cur, mem, ch, mch, wrote, launched, chOut, pre, rt, h>>
 DeleteCsv(p, m) == /\ CanTouch(DelRank(p, "csv", m)) /\ ~files[p].csv[m].a
                    /\ files' = [files EXCEPT ![p].csv[m] = Absent]
                    /\ touched' = [touched EXCEPT !.del = Append(@, <<p, "csv", m>>)]
@@ -134,7 +142,9 @@ StartRun == /\ ph = "idle" /\ runs < MaxRuns
             /\ wrote' = [p \in Plots |-> NoWrite(p)] /\ launched' = [p \in Plots |-> NoLaunch]
             /\ chOut' = [p \in Plots |-> "U"] /\ pre' = files /\ fresh' = FALSE
             /\ rt' = touched /\ touched' = NoTouch /\ rank' = 0
-            /\ UNCHANGED <<sc, dataVer, tplVer, files, texNewer, set, runs, h>>
+            \* new objects have loaded no template yet
+            /\ cached' = IF reuse THEN cached ELSE 0
+            /\ UNCHANGED <<sc, reuse, dataVer, tplVer, files, texNewer, set, runs, h>>
 
 \* Write.run on one value (docstring of Write.run): [f: the file afterwards, ch, w: written]
 WriteEl(mode, file, content, c) ==
@@ -147,7 +157,9 @@ WriteObj(content) == [f |-> content, ch |-> "T", w |-> TRUE]
 \* group_plots / MapGroup: output.changed of a group from those of its members
 Combine(flags) == IF \E i \in 1..Len(flags) : flags[i] = "T" THEN "T" ELSE "F"
 
-InRun == UNCHANGED <<sc, dataVer, tplVer, set, runs, cur, chOut, pre, touched, rank, fresh, rt, h>>
+InRun == UNCHANGED <<sc, reuse, dataVer, tplVer, set, runs, cur, chOut, pre, touched, rank, fresh, rt, h>>
+\* RenderLaTeX: the template version that is rendered now
+Rendered == IF reuse /\ cached # 0 /\ ~AutoReload THEN cached ELSE tplVer
 WriteCSV == /\ ph = "csv"
             /\ LET content == C(0, <<dataVer[cur][mem]>>)
                    r == IF sc.obj[cur] THEN WriteObj(content) ELSE WriteEl(set.m1, files[cur].csv[mem], content, "U")
@@ -157,12 +169,14 @@ WriteCSV == /\ ph = "csv"
                  /\ IF mem < NS(cur) THEN mem' = mem + 1 /\ mch' = all /\ UNCHANGED <<ph, ch>>
                     ELSE /\ mem' = 1 /\ mch' = <<>> /\ ph' = "tex"
                          /\ ch' = IF sc.grouped THEN Combine(all) ELSE all[1]
-            /\ InRun /\ UNCHANGED <<texNewer, launched>>
+            /\ InRun /\ UNCHANGED <<texNewer, launched, cached>>
+\* RenderLaTeX + Write
 WriteTeX == /\ ph = "tex"
-            /\ LET r == WriteEl(set.m2, files[cur].tex, C(tplVer, <<>>), ch) IN
+            /\ LET r == WriteEl(set.m2, files[cur].tex, C(Rendered, <<>>), ch) IN
                  /\ files' = [files EXCEPT ![cur].tex = r.f] /\ ch' = r.ch
                  /\ wrote' = [wrote EXCEPT ![cur].tex = r.w]
                  /\ texNewer' = [texNewer EXCEPT ![cur] = @ \/ r.w]
+            /\ cached' = Rendered
             /\ ph' = "pdf" /\ InRun /\ UNCHANGED <<launched, mem, mch>>
 LaTeX == /\ ph = "pdf"
          /\ LET c == IF ch = "U" THEN (IF files[cur].pdf.a \/ texNewer[cur] THEN "T" ELSE "F") ELSE ch
@@ -172,7 +186,7 @@ LaTeX == /\ ph = "pdf"
                                   C(files[cur].tex.t, [m \in 1..NS(cur) |-> files[cur].csv[m].d[1]])]
                    /\ launched' = [launched EXCEPT ![cur].pdf = TRUE]
                    /\ texNewer' = [texNewer EXCEPT ![cur] = FALSE] /\ ch' = "T"
-         /\ ph' = "png" /\ InRun /\ UNCHANGED <<wrote, mem, mch>>
+         /\ ph' = "png" /\ InRun /\ UNCHANGED <<wrote, mem, mch, cached>>
 Rec == [touched |-> rt,
         exp |-> [p \in Plots |-> [files |-> files'[p], wrote |-> wrote[p], launched |-> launched'[p], ch |-> chOut'[p]]]]
 PNG == /\ ph = "png"
@@ -185,7 +199,7 @@ PNG == /\ ph = "png"
                            /\ UNCHANGED <<runs, fresh, h>>
           ELSE /\ ph' = "idle" /\ cur' = 0 /\ ch' = "U" /\ runs' = runs + 1 /\ fresh' = TRUE
                /\ h' = IF KeepHistory THEN Append(h, Rec) ELSE h
-       /\ UNCHANGED <<sc, dataVer, tplVer, texNewer, set, wrote, pre, touched, rank, rt, mem, mch>>
+       /\ UNCHANGED <<sc, reuse, cached, dataVer, tplVer, texNewer, set, wrote, pre, touched, rank, rt, mem, mch>>
 
 DeleteCsvAny == \E p \in Plots : \E m \in 1..NS(p) : DeleteCsv(p, m)
 DeleteOtherAny == \E p \in Plots, k \in {"tex", "pdf", "png"} : DeleteOther(p, k)
@@ -220,5 +234,5 @@ TypeOK == /\ ph \in {"idle", "csv", "tex", "pdf", "png"} /\ ch \in {"U", "F", "T
           /\ cur \in 0..NP /\ set \in SettingsAll
 
 Terminal == ph = "idle" /\ runs = MaxRuns
-Emitted == Terminal => PrintT(ToJson([sc |-> sc, set |-> set, h |-> h]))
+Emitted == Terminal => PrintT(ToJson([sc |-> sc, reuse |-> reuse, set |-> set, h |-> h]))
 =============================================================================
